@@ -168,10 +168,9 @@ def run(ctx):
 
 
 MUTANTS = [
-    Mutant("wrong-axis", CL, "if adj_j >= 0 and adj_j < cells.shape[1]:", "if adj_j >= 0 and adj_j < cells.shape[0]:", "R1.cell-access-guarded"),
-    Mutant("lower-bound-dropped", CL, "if adj_k >= 0 and adj_k < cells.shape[2]:", "if adj_k < cells.shape[2]:", "R1.cell-access-guarded"),
-    Mutant("modulo-after-mask", CL, "        if self._periodic:\n            # Map indices of repeated coordinates to original\n            # coordinates, i.e. the coordinates in the central box\n            # -> Remainder of dividing index by original number of coordinates\n            indices[indices != -1] %= self._orig_length\n",
-           "", "R3.periodic-modulo-before-mask"),
+    Mutant("wrong-axis", CL, "if (adj_j >= 0 and adj_j < cells.shape[1]):", "if (adj_j >= 0 and adj_j < cells.shape[0]):", "R1.cell-access-guarded"),
+    Mutant("lower-bound-dropped", CL, "if (adj_k >= 0 and adj_k < cells.shape[2]):", "if (adj_k < cells.shape[2]):", "R1.cell-access-guarded"),
+    Mutant("modulo-after-mask", CL, "            indices[indices != -1] %= self._orig_length\n", "            pass\n", "R3.periodic-modulo-before-mask"),
     Mutant("repair-length-type", CL, "        cdef int length = (2*max_cell_radius + 1)**3 * self._max_cell_length", "        cdef int64 length = (2*max_cell_radius + 1)**3 * self._max_cell_length",
            "R2.allocation-size-width", kind="repair"),
     Mutant("selection-check-removed", CL, "            if self._selection.shape[0] != self._orig_length:", "            if False:", "R3.selection-length"),
